@@ -30,6 +30,7 @@ func init() {
 				"R13.3 non-zero bound at every draw site reachable from Generate (LIN / Size()!=0 guard on the same copy / constant)",
 				"R13.4+R13.6 panic-freedom of the call tree of both Generate methods (context-sensitive nilness + LIN); named exemptions only: CSPRNG-failure panic, bounded-draw n==0 panic (discharged at call sites by R13.3), stringFromSet's r.(string) (set provenance checked)",
 				"R13.7 SuccessProbability() = 2^(Entropy(recipe) - Entropy(recipe with all requirements turned into allowed characters)), clamped: with C07's exact count this is the exact fraction of unconstrained candidates that satisfy the requirements",
+				"R13.7b the entropies it subtracts are exact: C07 R7.1-R7.6 re-run under R13.7",
 				"R13.8 pre-flight: refused iff successProbability <= 0 or (1 - successProbability)^MaxTrials > MaxFailRate (so a recipe comfortably above the threshold is never refused)",
 				"R13.5 attempt budget: the loop containing the character draws is nested in a counted loop 0<=i<MaxTrials step 1; no draw outside it in CharRecipe.Generate",
 			},
@@ -127,6 +128,9 @@ func runC13(p *core.Program, r *core.Report) {
 		r.Pass("R13.6", "-", "only string elements are added to character sets", "", charSetWhy)
 	}
 	checkSuccessProbability(p, r)
+	// SuccessProbability is 2^(Entropy(recipe) - Entropy(relaxed recipe)): it is the exact
+	// fraction only if the character-recipe entropy is the exact count (= C07's rules re-run)
+	r.Borrow("R13.7", func() { runC07(p, r) })
 }
 
 // checkSuccessProbability: R13.7 (shape of SuccessProbability) and R13.8 (the pre-flight test).
